@@ -1416,7 +1416,7 @@ ret r
 spec:
     requires bp.wf(), i.kind == TokenKind::Int, a.kind == TokenKind::Int, b.kind == TokenKind::Int,
         exists|x: int, y: int| 0 <= x <= y < bp.toks().len() && bp.toks()[x] == a && bp.toks()[y] == b,
-    ensures r is Ok ==> r->Ok_0 is Fraction,
+    ensures r is Ok ==> r->Ok_0 is Fraction && r->Ok_0->den != 0,     // [C07] a zero denominator is never accepted
         r is Err ==> r->Err_0.sev() == crate::error::Severity::Error,
 @*/
 /*@ fn src/parser/quantity.rs range_value
